@@ -55,7 +55,11 @@ def anchored_loops(g):
 
 def gen_doc(rng, entry, tier):
     cap = rng.choice([30, 80, 160]) if tier == 'quick' else rng.choice([50, 200, 800])
-    if rng.random() < 0.15:
+    if rng.random() < 0.08:
+        # two interchanges of different versions in one file: the control map changes at the second ISA
+        g = docsim.draw_mixed(rng, size_cap=cap, structural=True, alphabet=V.PLAIN, charset='E')
+        entry = dict(entry, file='+'.join(g.files))
+    elif rng.random() < 0.15:
         # groups of different maps in one interchange: the reader switches maps at GS, loop ids of one map may be
         # prefixes of loop ids of another
         g = docsim.draw_multimap(rng, entry['icvn'], size_cap=cap, structural=True, alphabet=V.PLAIN, charset='E')
